@@ -53,7 +53,7 @@ META = dict(
                          shadow_comparisons_aged=1000000, opcount_measurements=4000000, wellformed_checked=200000,
                          deep_inputs_run=30, sweep_points=300, warm_rechecks=10000, ill_formed_inputs=100000,
                          sequences_of_200=1000, selfcheck_ok=1)},
-    budget=dict(quick=1500, thorough=1500),
+    budget=dict(quick=1500, thorough=7200),
     unit_timeout=dict(quick=900, thorough=3000),
 )
 
